@@ -42,6 +42,46 @@ def _setup_symbolic():
     # repr(), or one harness function calling another) by an uninterpreted symbolic return value behind a ParallelNode.
     # Every call is executed for real here.
     core.ShortCircuitingContext.make_interceptor = lambda self, original: original
+    # Formatting a symbolic number (f-strings in log / error messages, str(x) in report fields) realises it, i.e. turns
+    # the search into an enumeration of values.  Formatting is never a subject: a symbolic number formats as "<sym>".
+    from crosshair.tracers import NoTracing as _NT
+
+    _sym_num = (bl.SymbolicInt, bl.RealBasedSymbolicFloat, bl.SymbolicBool)
+    _orig_format = core._PATCH_REGISTRATIONS[format]
+    _orig_str = core._PATCH_REGISTRATIONS[str]
+
+    from crosshair.tracers import ResumedTracing as _RT
+
+    def _vf_format(obj, format_spec=""):
+        # same logic as CrossHair's _format, except that a symbolic number is not realised
+        with _NT():
+            if isinstance(obj, _sym_num):
+                return "<sym>"
+            if isinstance(format_spec, bl.AnySymbolicStr):
+                format_spec = core.realize(format_spec)
+            if format_spec in ("", "s") and isinstance(obj, bl.AnySymbolicStr):
+                return obj
+            obj = core.deep_realize(obj)
+            result = bl.invoke_dunder(obj, "__format__", format_spec)
+            if result is not bl._MISSING:
+                return result
+            return format(obj, format_spec)
+
+    def _vf_str(*a):
+        # same logic as CrossHair's _str, except that a symbolic number is not turned into symbolic digits
+        with _NT():
+            if len(a) == 1:
+                (x,) = a
+                if isinstance(x, _sym_num):
+                    return "<sym>"
+                if isinstance(x, bl.AnySymbolicStr):
+                    return x
+                with _RT():
+                    return bl.invoke_dunder(x, "__str__")
+            return str(*a)
+
+    core._PATCH_REGISTRATIONS[format] = _vf_format
+    core._PATCH_REGISTRATIONS[str] = _vf_str
     core._SIMPLE_PROXIES[int] = lambda creator, *a: bl.SymbolicBoundedInt(creator.varname, creator.pytype)
     core._SIMPLE_PROXIES[bool] = lambda creator, *a: bl.SymbolicBool(creator.varname, creator.pytype)
     if FLOAT_MODEL == "real":
